@@ -1,6 +1,7 @@
 (* C13 - Behaviour depends on the byte stream, not on how it is segmented.
    Property theorems only (proved in Recv/RecvProofs.v). *)
 From Coq Require Import NArith List Bool.
+From V9 Require Shape.ShapeLib Shape.PRecv.
 From V9 Require Import Lib.GoSem Lib.Bytes Gen.Consts Codec.Msg Codec.Unpack Recv.Recv Recv.RecvProofs.
 Import ListNotations.
 Local Open Scope N_scope.
@@ -68,3 +69,10 @@ Example C13_nonvacuous :
   snd (srv_run true p one) = snd (srv_run true p two) /\
   p_msize (r_par (fst (srv_run true p one))) = 64.
 Proof. vm_compute. repeat split. Qed.
+
+
+(* ---- a modelling assumption about the shape of the CURRENT source (Gen/Shape.v), re-checked on every run ---- *)
+(* both receive loops read the dialect from the connection at every Unpack (parameters re-read after a synchronous Tversion) *)
+Theorem C13_source_rereads_the_dialect_for_every_message : ShapeLib.recv_rereads_dialect = true.
+Proof. exact PRecv.recv_rereads_dialect_ok. Qed.
+Print Assumptions C13_source_rereads_the_dialect_for_every_message.
